@@ -1,8 +1,9 @@
 (* Typing judgement of the component-expression language (Model/Expr.v `cexpr`), DEFINED through the promotion functions of
    Model/Promote.v instantiated with the tables regenerated from the code (Gen/Types.v: implicit-promotion table, subclass pairs,
    operator registry with type_to_check / return_type).  `ctype true` is the rule the code applies (hand transcription of the
-   operator classes' validate methods for the non-generic operators); `ctype false` is the specification where they differ
-   (nvl: the code returns the LEFT operand's type, VTL the promoted type).  Definitions only. *)
+   operator classes' validate methods for the non-generic operators: If, Nvl, Between, In, Round/Trunc, Substr); `ctype false` is the
+   specification where they differ (If.validate swaps the operands of the promotion when only the then-branch is a literal).
+   Definitions only. *)
 From Coq Require Import ZArith QArith String List Bool.
 Import ListNotations.
 From VTL Require Import Base.Val Model.Types Model.Promote Model.Scalar Model.Expr Gen.Types.
@@ -22,6 +23,7 @@ Section Typing.
   Definition bpromo := binary_promotion implicit subclass_code.
   Definition upromo := unary_promotion implicit subclass_code.
   Definition bcheck := check_binary implicit.
+  Definition accepts (l r : ty) : bool := match bpromo l r None (Some TBoolean) with Some _ => true | None => false end.
 
   Definition op_sig (name : string) : option (option ty * option ty) :=
     option_map (fun o => (o_tc o, o_rt o)) (find (fun o => String.eqb (o_name o) name) registry).
@@ -78,13 +80,11 @@ Section Typing.
           else None)))
     | CNvl a b =>
         obind (ctype G a) (fun l => obind (ctype G b) (fun r =>
-          match bpromo l r None None with
-          | Some t => if impl then Some l else Some t
-          | None => None
-          end))
+          bpromo l r None None))
     | CBetween a lo hi =>
         obind (ctype G a) (fun ta => obind (ctype G lo) (fun tl => obind (ctype G hi) (fun th =>
-          if bcheck ta tl None None && bcheck ta th None None then Some TBoolean else None)))
+          (* Between.validate: type_validation(operand, from) and (operand, to) with type_to_check None, return_type Boolean *)
+          if accepts ta tl && accepts ta th then Some TBoolean else None)))
     | CIn a l | CNotIn a l =>
         obind (ctype G a) (fun ta => obind (lits_ty l) (fun ts => bpromo ta ts None (Some TBoolean)))
     | CRound a n | CTrunc a n =>
@@ -94,27 +94,35 @@ Section Typing.
     end.
 End Typing.
 
+(* the rule nvl had before the repair (the LEFT operand's type); kept as a regression witness *)
+Definition nvl_type_before_fix (l r : ty) : option ty :=
+  match binary_promotion implicit_code subclass_code l r None None with Some _ => Some l | None => None end.
+
 Definition ctype_code := ctype implicit_code true.
 Definition ctype_spec := ctype implicit_code false.
 Definition ctype_strict := ctype implicit_strict false.
 
 (* which values inhabit which type: null inhabits every type; an Integer value inhabits Number and a Boolean value inhabits
    String (implicit promotions keep the representation) *)
-Definition has_ty (v : val) (t : ty) : bool :=
+Definition has_ty_s (strict : bool) (v : val) (t : ty) : bool :=
   match v, t with
   | VNull, _ => true
   | VInt _, (TInteger | TNumber) => true
   | VNum _, TNumber => true
   | VStr _, TString => true
-  | VBool _, (TBoolean | TString) => true
+  | VBool _, TBoolean => true
+  | VBool _, TString => negb strict
   | _, _ => false
   end.
+Definition has_ty := has_ty_s false.
+Definition implicit_of (strict : bool) : ty -> list ty := if strict then implicit_strict else implicit_code.
 
-Fixpoint env_typed (G : tenv) (e : env) : Prop :=
+Fixpoint env_typed_s (strict : bool) (G : tenv) (e : env) : Prop :=
   match G with
   | [] => True
-  | (n, t) :: r => (exists v, elook n e = Some v /\ has_ty v t = true) /\ env_typed r e
+  | (n, t) :: r => (exists v, elook n e = Some v /\ has_ty_s strict v t = true) /\ env_typed_s strict r e
   end.
+Definition env_typed := env_typed_s false.
 
 (* expressions outside the value model of Model/Scalar.v (mod and power on non-integers) *)
 Fixpoint supported (c : cexpr) : bool :=
